@@ -70,8 +70,9 @@ let issue_name (i : Wf.issue) : string =
   | Wf.WRootChain -> "RootChain"
 
 let fold_units (us : coq_N list) : coq_N list =
-  (* case folding of a long name given as UTF-16 units *)
-  Stdlib.List.concat_map upper (Str.utf16_decode_lossy us)
+  (* case folding of a long name given as UTF-16 units: the extracted Spec/WfFold.wf_fold with the loaded table - the
+     very term Proofs/DupLongProofs.wf_fold_agrees relates to the library's matching (eq_name_lfn with the same table) *)
+  WfFold.wf_fold upper us
 
 (* locate the abs children of the directory whose abstract node id is [d] *)
 let rec names_to_root (s : Tree.tstate) (d : coq_N) (acc : coq_N list list) : coq_N list list =
